@@ -158,6 +158,18 @@ def run_single(ctx, rng, N):
                        dict(replay, lats=lats, latname=latname))
         except Exception as e:
             ctx.violation("C08:%s:coslat:error" % cls, "%s(use_coslat=True) with latitude dimension %r raised %r" % (cls, latname, e), dict(replay, lats=lats, latname=latname))
+        # ---- both at once: use_coslat together with user weights is the product of the two, each applied once
+        w2 = 0.2 + rng.random((nlat, nlon)) * 3
+        w2d = xr.DataArray(w2, dims=(latname, "lon"), coords={latname: lats, "lon": dl.lon})
+        ctx.case(("coslat+weights", cls, latname, n, nlat, nlon, i), nontrivial=True, tag="%s/coslat+weights" % cls,
+                 sample=dict(cls=cls, test="coslat+weights", latitude_name=latname))
+        try:
+            a = fitted(make, dl, w=w2d, center=True, use_coslat=True)
+            b = fitted(make, dl, w=w2d * wl, center=True, use_coslat=False)
+            same_model(ctx, "C08:%s:coslat+weights" % cls, "%s: use_coslat together with user weights vs the product weights sqrt(cos(lat)) * w" % cls, a, b,
+                       dict(replay, lats=lats, latname=latname, weights=w2))
+        except Exception as e:
+            ctx.violation("C08:%s:coslat+weights:error" % cls, "%s(use_coslat=True) with user weights raised %r" % (cls, e), dict(replay, lats=lats, latname=latname, weights=w2))
         # ---- global factor
         cfac = float(rng.choice([-1, 1]) * 10.0 ** rng.uniform(-6, 6))
         ctx.case(("global", cls, n, nlat, nlon, cfac, i), nontrivial=True, tag="%s/global/%s" % (cls, "neg" if cfac < 0 else "pos"),
@@ -227,6 +239,12 @@ def run_cross(ctx, rng, N):
         wl1 = xr.DataArray(np.sqrt(np.cos(np.deg2rad(dx.lat.values))), dims=("lat",), coords={"lat": dx.lat})
         wl2 = xr.DataArray(np.sqrt(np.cos(np.deg2rad(dy.lat.values))), dims=("lat",), coords={"lat": dy.lat})
         same("C08:%s:coslat" % name, "%s: use_coslat vs weights sqrt(cos(lat))" % name, fit(dx, dy, use_coslat=True), fit(dx, dy, wl1, wl2))
+        ctx.case(("xcoslat+weights", name, i), nontrivial=True, tag="%s/coslat+weights" % name)
+        try:
+            same("C08:%s:coslat+weights" % name, "%s: use_coslat together with user weights vs the product weights" % name,
+                 fit(dx, dy, wd1, wd2, use_coslat=True), fit(dx, dy, wd1 * wl1, wd2 * wl2))
+        except Exception as e:
+            ctx.violation("C08:%s:coslat+weights:error" % name, "%s(use_coslat=True) with user weights raised %r" % (name, e), replay)
         # ---- options given per field: each flag acts on its own field only
         for flags in ([True, False], [False, True]):
             ctx.case(("xcoslat-per-field", name, tuple(flags), i), nontrivial=True, tag="%s/coslat-per-field" % name)
